@@ -51,6 +51,8 @@ type Gates struct {
 	mu      sync.Mutex
 	cond    *sync.Cond
 	holds   map[string]bool
+	once    map[string]bool         // points that park a goroutine only on its first arrival
+	seen    map[string]map[int]bool // point -> goroutine ids that already arrived
 	parked  []*Parked
 	passes  map[string]int
 	total   int
@@ -62,7 +64,7 @@ type Gates struct {
 
 // NewGates creates a controller with all gates passing.
 func NewGates() *Gates {
-	g := &Gates{holds: map[string]bool{}, passes: map[string]int{}, logging: true}
+	g := &Gates{holds: map[string]bool{}, passes: map[string]int{}, logging: true, once: map[string]bool{}, seen: map[string]map[int]bool{}}
 	g.cond = sync.NewCond(&g.mu)
 	return g
 }
@@ -75,10 +77,24 @@ func (g *Gates) logf(format string, a ...interface{}) {
 
 // Arrive is called by instrumented code at a gate point.
 func (g *Gates) Arrive(point string) {
+	gid := 0
 	g.mu.Lock()
+	if g.once[point] {
+		g.mu.Unlock()
+		gid = goid()
+		g.mu.Lock()
+	}
 	g.passes[point]++
 	g.total++
-	if g.open || !g.holds[point] {
+	again := false
+	if g.once[point] {
+		if g.seen[point] == nil {
+			g.seen[point] = map[int]bool{}
+		}
+		again = g.seen[point][gid]
+		g.seen[point][gid] = true
+	}
+	if g.open || !g.holds[point] || again {
 		g.logf("pass %s", point)
 		g.cond.Broadcast()
 		g.mu.Unlock()
@@ -100,6 +116,30 @@ func (g *Gates) Hold(points ...string) {
 		g.holds[p] = true
 	}
 	g.mu.Unlock()
+}
+
+// HoldFirst makes the given points park every goroutine on its first arrival only.
+func (g *Gates) HoldFirst(points ...string) {
+	g.mu.Lock()
+	for _, p := range points {
+		g.holds[p] = true
+		g.once[p] = true
+	}
+	g.mu.Unlock()
+}
+
+func goid() int {
+	var buf [64]byte
+	n := runtime.Stack(buf[:], false)
+	// "goroutine 123 [running]:"
+	id := 0
+	for _, c := range buf[len("goroutine "):n] {
+		if c < '0' || c > '9' {
+			break
+		}
+		id = id*10 + int(c-'0')
+	}
+	return id
 }
 
 // Unhold lets the given points pass again (already parked goroutines stay parked).
